@@ -5,7 +5,7 @@ import itertools
 import os
 import threading
 
-from .common import Run, bool_s, err_s, list_s, opt_s
+from .common import Run, bool_s, err_s, guarded, list_s, opt_s
 
 META = {
     "claimed": True,
@@ -16,13 +16,37 @@ META = {
     "_merge_and_spill_op/_finalizer_dask_op never fails and the parts handed to the writer, in increasing part "
     "number, concatenate to header + chunks + footer; ids unique, in range, increasing; all parts but the last "
     ">= min_write_sz; finalise gets exactly the written parts in order; callbacks see the complete observed "
-    "list.  The model is tied to /repo by an operation-level differential test with a recording writer "
-    "(exhaustive over small configurations along every merge tree, random larger ones, and real dask "
+    "list.  Growth round: the PUBLIC entry point from its arguments - the graph shape is derived inside the model "
+    "(dask Bag.fold(split_every) loop per bag, _mpu_collate_op over the bags: Model/C06Dask.lean) and compared with the "
+    "tree the real graph performs on every dask run and exhaustively for 1..34 (90) partitions x split_every "
+    "{2,3,4,5,8}; mpu_write_end_to_end / mpu_write_end_to_end_no_writer state C06 for mpu_write(bags, ...) with no tree "
+    "and no schedule hypothesis; object_independent_of_split_every.  Composition C05 o C06 o C18 "
+    "(Props/C06Cog.lean::cog_file_end_to_end): tile stream in C05's writeOrder, any cutting into bags/partitions, "
+    "mpu_write, MPUFileSink: file = header ++ tiles and every patched header entry addresses its tile's bytes on disk "
+    "(real mpu_write -> real MPUFileSink runs are checked byte for byte).  Public MPUChunk methods driven directly "
+    "(Model/C06Ops.lean): flush with every keyword form (leftPartId None / given, finalise True / False, return value, "
+    "state of the chunk before and after; flush(finalise=False) + write.finalise(chunk.parts) evaluated with the "
+    "statement), maybe_write / flush_rhs return values and post-states, what a merge task leaves in its INPUT objects "
+    "and what a second execution of the same task on them does (merge_twice_* theorems, compared with the real "
+    "objects), __dask_tokenize__ (token_injective; as found it omits lhs_keep: token_as_found_cex, finding "
+    "dask-token-ignores-lhs-keep).  The model is tied to /repo by an operation-level differential test with a "
+    "recording writer (exhaustive over small configurations along every merge tree, random larger ones, and real dask "
     "mpu_write graphs under synchronous, threaded and seeded random-topological schedulers).",
     "note": "Trusted: Lean kernel + {propext, Classical.choice, Quot.sound}; dask executes each task once "
-    "after its dependencies and tasks are pure functions of their inputs (re-execution after worker loss is "
-    "outside the model because flush_rhs mutates its input); the real PartsWriter is replaced by a recording "
-    "fake; max_write_sz is not enforced by the code and not part of the property.",
+    "after its dependencies and tasks are pure functions of their inputs: a merge task is NOT repeatable on the same "
+    "objects once it has written or spilled (flush_rhs mutates lhs, the merged chunk shares lhs.parts) - modelled and "
+    "compared (mergeTwice), outside the statement, which quantifies over schedules not over re-executions; the real "
+    "PartsWriter is replaced by a recording fake (plus the library's MPUFileSink end to end); max_write_sz is never "
+    "read by the code: parts are unbounded above (a partition without spare write credits is flushed as one part), not "
+    "part of the property.  dask's Bag.fold shape is third-party behaviour: derived in the model and CHECKED against the "
+    "real graph each run, not proved about dask.  Private operators are looked up defensively: when "
+    "_mpu_append_chunks_op/_merge_and_spill_op/_mpu_collate_op/_finalizer_dask_op are not found under these names the "
+    "direct-drive and re-execution streams are skipped (note in the evidence) and every stream goes through "
+    "MPUChunk.from_dask_bag / mpu_write.  INVENTORY of _mpu.py not mirrored: __repr__; PartsWriter protocol members "
+    "max_write_sz; user_kw forwarding to the callbacks (opaque); dask key names / pure flags of the finaliser (two "
+    "uploads in one graph are checked behaviourally: upload-never-finalised); bytes vs bytearray payloads and buffer "
+    "ownership (oracle caller-buffer-mutated only); deeper aliasing than one task's inputs (a chunk that was the "
+    "left input of an EARLIER unstarted merge shares its parts list with that merge's result).",
     "technique": "Lean 4 invariant + refinement proof by induction over merge trees; differential correspondence",
     "design_ref": "DESIGN.md §4 C06",
 }
@@ -138,6 +162,68 @@ def transport(obj, kind: int):
     return obj
 
 
+
+# ------------------------------------------------------------------ private names are looked up defensively
+PRIV_OPS = ("_mpu_append_chunks_op", "_merge_and_spill_op", "_mpu_collate_op", "_finalizer_dask_op")
+
+
+def priv_ops(M):
+    """the four module-private dask operators of _mpu.py, or None when one of them is not there any more (renamed,
+    inlined, moved): then nothing is called or patched by its private name and every stream takes the public route
+    (MPUChunk.from_dask_bag / mpu_write through dask, compared with the tree the MODEL derives)"""
+    ops = {n: getattr(M, n, None) for n in PRIV_OPS}
+    return ops if all(callable(v) for v in ops.values()) else None
+
+
+def fallback_mode() -> bool:
+    from odc.geo.cog import _mpu as M
+    return priv_ops(M) is None
+
+
+def py_dask_tree(leaves, split=4):
+    """the merge tree dask's Bag.fold(split_every=split) performs over these partitions (python twin of the Lean
+    `daskFold`; the Lean function is compared with the real graph on every run - `c06 shape`)"""
+    level = [("l", l) for l in leaves]
+
+    def red(group):
+        t = group[0]
+        for r in group[1:]:
+            t = ("n", t, r)
+        return t
+
+    while len(level) > split:
+        level = [red(level[i:i + split]) for i in range(0, len(level), split)]
+    return red(level)
+
+
+def py_mpu_tree(subs, split=4):
+    t = None
+    for sub in subs:
+        b = py_dask_tree(sub, split)
+        t = b if t is None else ("n", t, b)
+    return t
+
+
+def public_root(M, w, leaves, spill, wpc, mark_final, split=4):
+    """the folded section of one bag through the public route only"""
+    import dask.bag
+    from dask.delayed import delayed
+    off = cid = 0
+    parts = []
+    for sizes in leaves:
+        items = []
+        for sz in sizes:
+            items.append((payload(off, sz), cid))
+            off += sz
+            cid += 1
+        parts.append(delayed(lambda x: x, pure=False)(items))
+    bag = dask.bag.from_delayed(parts)
+    mp = w.min_part if w is not None else 1
+    lk = w.min_write_sz if w is not None else 0
+    return M.MPUChunk.from_dask_bag(mp + 1, bag, writes_per_chunk=wpc, mark_final=mark_final, lhs_keep=lk, write=w,
+                                    spill_sz=spill, split_every=split).compute(scheduler="synchronous")
+
+
 # ------------------------------------------------------------------ trees
 def all_trees(k: int):
     """all binary trees with k leaves, as nested tuples of leaf indices"""
@@ -172,6 +258,46 @@ def tree_leaves(t):
     if t[0] == "l":
         return [t[1]]
     return tree_leaves(t[1]) + tree_leaves(t[2])
+
+
+def skel(t) -> str:
+    """skeleton of a merge tree, leaves numbered in stream order (same text as the Lean `Tree.skel`)"""
+    n = [0]
+
+    def go(t):
+        if t[0] == "l":
+            n[0] += 1
+            return str(n[0] - 1)
+        a = go(t[1])
+        return f"({a} {go(t[2])})"
+
+    return go(t)
+
+
+def enc_bags(subs) -> str:
+    return ";".join("/".join(",".join(str(s) for s in part) if part else "_" for part in sub) for sub in subs)
+
+
+def mpuw_line(cfg, subs) -> str:
+    has_w, min_write, min_part, max_part, spill, wpc, hdr, ftr = cfg
+    return (f"c06 mpuw {bool_s(has_w)} {min_write} {min_part} {max_part} {spill} {wpc} {opt_s(hdr)} {opt_s(ftr)} "
+            f"{enc_bags(subs)}")
+
+
+def dask_shape_corr(R, info, subs, split, out, cfg, use_mpu_write, tag):
+    """the merge tree the real graph performed (observed through the instrumented operators) against the tree the
+    model DERIVES from the partition counts (dask's fold loop + collate), and - through mpu_write - the whole run
+    from the bags with no observed tree at all"""
+    tree = info.get("tree")
+    nparts = [len(sub) for sub in subs]
+    split = info.get("split", split)
+    use_mpu_write = info.get("used_mpu_write", use_mpu_write)
+    if tree is not None:
+        sk = skel(tree)
+        R.corr(f"c06 shape {split} {list_s(nparts)}", lambda: sk,
+               sig=f"shape|split={split}|bags={len(nparts)}|maxparts={'1' if max(nparts) == 1 else '<=split' if max(nparts) <= split else '<=split^2' if max(nparts) <= split * split else '>split^2'}")
+    if use_mpu_write and info["exc"] is None:
+        R.corr(mpuw_line(cfg, subs), lambda: out, sig=f"mpuw|{tag}|bags={len(nparts)}")
 
 
 def random_tree(rng, leaves):
@@ -250,6 +376,7 @@ def real_direct(case: Case, mutable: bool = False, shared=None, containers: int 
     lets a second run re-use the very same buffer objects (a producer re-using its buffers, a cached header)."""
     from odc.geo.cog import _mpu as M
 
+    OPS = priv_ops(M)      # callers use real_direct only when the operators exist (see fallback_mode)
     bufs = shared if shared is not None else {}
 
     def container(idx):
@@ -286,11 +413,11 @@ def real_direct(case: Case, mutable: bool = False, shared=None, containers: int 
             part = (chunks if kind == 0 else tuple(chunks) if kind == 1 else iter(chunks) if kind == 2
                     else (c for c in chunks))
             mpus = [mpu] if kind in (0, 1) else iter([mpu])
-            (out,) = M._mpu_append_chunks_op(mpus, part, write=w, spill_sz=case.spill)
+            (out,) = OPS["_mpu_append_chunks_op"](mpus, part, write=w, spill_sz=case.spill)
             return transport(out, tkind)
         l = ev(t[1])
         r = ev(t[2])
-        return transport(M._merge_and_spill_op(l, r, write=w, spill_sz=case.spill), tkind)
+        return transport(OPS["_merge_and_spill_op"](l, r, write=w, spill_sz=case.spill), tkind)
 
     info = {"w": w, "seen": None, "exc": None, "bufs": bufs}
     try:
@@ -305,7 +432,7 @@ def real_direct(case: Case, mutable: bool = False, shared=None, containers: int 
                 return bs
             return f
 
-        rr = M._finalizer_dask_op(
+        rr = OPS["_finalizer_dask_op"](
             root, write=w,
             mk_header=None if case.hdr is None else mk(buf("h", hdr_bytes(case.hdr))),
             mk_footer=None if case.ftr is None else mk(buf("f", ftr_bytes(case.ftr))))
@@ -364,6 +491,285 @@ def oracle(R: Run, case: Case, out: str, info, via: str):
     R.oracle(not small, "undersized-non-last-part", cd, f"parts below min_write_sz={case.min_write}: {small}")
 
 
+
+# ------------------------------------------------------------------ direct drive of the public MPUChunk methods
+class RecWriterD(RecWriter):
+    """receipts carry the bytes of the part, so that a chunk's .parts list can be shown with its content"""
+
+    def __call__(self, part, data):
+        with self._lock:
+            self.calls.append((int(part), bytes(data)))
+        return {"PartNumber": part, "_data": bytes(data)}
+
+
+def fmt_chunk_real(c) -> str:
+    parts = "[" + ",".join(f"{p['PartNumber']}:{p['_data'].hex()}" for p in c.parts) + "]"
+    return (f"next={c.nextPartId} credits={c.write_credits} data={bytes(c.data).hex()} left={bytes(c.left_data).hex()} "
+            f"parts={parts} obs={fmt_obs(c.observed)} final={bool_s(c.is_final)}")
+
+
+def real_eval_tree(M, w, tree, spill, wpc, mark_final, total, state):
+    """evaluate one merge tree with the real operators; `state` carries partition index / stream offset / chunk id"""
+    min_part = w.min_part if w is not None else 1
+    lhs_keep = w.min_write_sz if w is not None else 0
+    ops = priv_ops(M)
+    if ops is None:
+        # public route: only whole, dask-shaped trees (callers build them with py_dask_tree in this mode)
+        leaves = tree_leaves(tree)
+        assert state["idx"] == 0 and total == len(leaves) and tree == py_dask_tree(leaves)
+        state["idx"] += len(leaves)
+        return public_root(M, w, leaves, spill, wpc, mark_final)
+
+    def ev(t):
+        if t[0] == "l":
+            idx = state["idx"]
+            state["idx"] += 1
+            mpu = M.MPUChunk(min_part + 1 + idx * wpc, wpc, is_final=mark_final and idx == total - 1, lhs_keep=lhs_keep)
+            chunks = []
+            for sz in t[1]:
+                chunks.append((payload(state["off"], sz), state["cid"]))
+                state["off"] += sz
+                state["cid"] += 1
+            (out,) = ops["_mpu_append_chunks_op"]([mpu], chunks, write=w, spill_sz=spill)
+            return out
+        l = ev(t[1])
+        r = ev(t[2])
+        return ops["_merge_and_spill_op"](l, r, write=w, spill_sz=spill)
+
+    return ev(tree)
+
+
+def flushd_case(R, min_write, min_part, max_part, spill, wpc, mark_final, lp, fin, tree, sig_extra=""):
+    """MPUChunk.flush called directly (every keyword form) on the root of a merge tree: the state of the chunk before
+    and after, the return value, the writer calls - against the model; and the two-step use
+    flush(finalise=False) + write.finalise(chunk.parts) against the statement of C06."""
+    from odc.geo.cog import _mpu as M
+    line = (f"c06 flushd {min_write} {min_part} {max_part} {spill} {wpc} {bool_s(mark_final)} {opt_s(lp)} {bool_s(fin)} "
+            f"{enc_tree(tree)}")
+    case = Case(True, min_write, min_part, max_part, spill, wpc, None, None, tree)
+    case.line = lambda: line       # replays re-run the direct flush, not the finaliser
+    w = RecWriterD(min_write, min_part, max_part)
+    info = {"w": w, "seen": None, "exc": None, "cb_seen": []}
+    hold = {}
+
+    def f():
+        total = len(tree_leaves(tree))
+        try:
+            root = real_eval_tree(M, w, tree, spill, wpc, mark_final, total, {"idx": 0, "off": 0, "cid": 0})
+        except Exception as e:  # pylint: disable=broad-except
+            info["exc"] = e
+            return "EVAL-" + err_s(e)
+        info["seen"] = list(root.observed)
+        pre = f"root[{fmt_chunk_real(root)} keep={root.lhs_keep}] before={fmt_calls(w.calls)}"
+        n0 = len(w.calls)
+        try:
+            nb, rr = root.flush(w, leftPartId=lp, finalise=fin)
+        except Exception as e:  # pylint: disable=broad-except
+            info["exc"] = e
+            return f"{pre} flush: {err_s(e)}"
+        made = "[" + ",".join(f"{p}:{d.hex()}" for p, d in w.calls[n0:]) + "]"
+        finalised = w.final is not None
+        hold["root"] = root
+        hold["rr"] = rr
+        return (f"{pre} flush: bytes={nb} writes={made} parts={list_s([p['PartNumber'] for p in root.parts])} "
+                f"finalised={bool_s(finalised)} after[{fmt_chunk_real(root)}]")
+
+    out = R.corr(line, f, sig=f"flushd|lp={'N' if lp is None else 'min_part' if lp == min_part else 'other'}|fin={bool_s(fin)}|"
+                 f"mf={bool_s(mark_final)}|mp={min_part}|{'err' if info['exc'] is not None else 'ok'}{sig_extra}")
+    if lp != min_part and not (lp is None and min_part == 1):
+        return out   # the part number of the left part is the caller's choice then: compared with the model only
+    if info["exc"] is None and not fin:
+        # second step of the two-step use: complete the upload from the chunk's own parts list
+        R.oracle(hold["rr"] is None and w.final is None, "flush-finalise-false-finalised", {"line": line},
+                 "flush(finalise=False) called write.finalise")
+        w.finalise(hold["root"].parts)
+    oracle(R, case, out, info, "direct:flush" + ("" if fin else "-then-finalise-by-hand"))
+    return out
+
+
+
+def direct_method_case(R, kind, min_write, min_part, max_part, spill, wpc, mark_final, arg1, arg2, tree):
+    """maybe_write / flush_rhs called directly on the root of a merge tree: return value, writer calls, state afterwards"""
+    from odc.geo.cog import _mpu as M
+    if kind == "mwret":
+        line = f"c06 mwret {min_write} {min_part} {max_part} {spill} {wpc} {bool_s(mark_final)} {arg1} {enc_tree(tree)}"
+    else:
+        line = (f"c06 frhs {min_write} {min_part} {max_part} {spill} {wpc} {bool_s(mark_final)} {bool_s(arg1)} {arg2} "
+                f"{enc_tree(tree)}")
+    tag = {}
+
+    def f():
+        w = RecWriterD(min_write, min_part, max_part)
+        try:
+            root = real_eval_tree(M, w, tree, spill, wpc, mark_final, len(tree_leaves(tree)), {"idx": 0, "off": 0, "cid": 0})
+        except Exception as e:  # pylint: disable=broad-except
+            return "EVAL-" + err_s(e)
+        n0 = len(w.calls)
+        tag["started"] = root.started_write
+        if kind == "mwret":
+            ret = root.maybe_write(w, arg1)
+        else:
+            ret = root.flush_rhs(w if arg1 else None, bytearray(ftr_bytes(arg2)))
+        made = "[" + ",".join(f"{p}:{d.hex()}" for p, d in w.calls[n0:]) + "]"
+        tag["wrote"] = len(w.calls) > n0
+        return f"ret={ret} writes={made} after[{fmt_chunk_real(root)}]"
+
+    out = R.corr(line, f)
+    R.sigs[-1] = (f"{kind}|started={bool_s(tag.get('started', False))}|wrote={bool_s(tag.get('wrote', False))}|"
+                  f"{'err' if out.startswith('ERR') else 'ok'}")
+    return out
+
+
+def rerun_case(R, min_write, min_part, max_part, spill, wpc, mark_final, tree_l, tree_r, soft):
+    """one _merge_and_spill_op executed twice on the same input objects.
+
+    HARD (correspondence, `c06 rerun1`): the chunk the task returns and the writer calls it makes.
+    SOFT (`c06 rerun`, appended to `soft`, compared by `rerun_soft_check`): the state both INPUT objects are left in
+    after the first execution and what the second execution on them does (Model/C06Ops.lean: mergeAndSpillPost,
+    mergeTwice).  What a task leaves in its inputs is an internal matter of the code (an implementation working on
+    defensive copies is just as good), so a difference there is recorded in the evidence, never a violation."""
+    from odc.geo.cog import _mpu as M
+    args = (f"{min_write} {min_part} {max_part} {spill} {wpc} {bool_s(mark_final)} {enc_tree(tree_l)} "
+            f"{enc_tree(tree_r)}")
+    tag = {}
+
+    def f():
+        w = RecWriterD(min_write, min_part, max_part)
+        total = len(tree_leaves(tree_l)) + len(tree_leaves(tree_r))
+        st = {"idx": 0, "off": 0, "cid": 0}
+        try:
+            l = real_eval_tree(M, w, tree_l, spill, wpc, mark_final, total, st)
+            r = real_eval_tree(M, w, tree_r, spill, wpc, mark_final, total, st)
+        except Exception:  # pylint: disable=broad-except
+            return "EVAL-ERR", "EVAL-ERR"
+        op = priv_ops(M)["_merge_and_spill_op"]
+
+        def once():
+            n0 = len(w.calls)
+            m = op(l, r, write=w, spill_sz=spill)
+            made = "[" + ",".join(f"{p}:{d.hex()}" for p, d in w.calls[n0:]) + "]"
+            return f"result[{fmt_chunk_real(m)}] writes={made}", f" lhs[{fmt_chunk_real(l)}] rhs[{fmt_chunk_real(r)}]", n0 != len(w.calls)
+
+        tag["rhs_started"] = r.started_write
+        before = f" lhs[{fmt_chunk_real(l)}] rhs[{fmt_chunk_real(r)}]"
+        try:
+            first, after1, wrote = once()
+        except Exception as e:  # pylint: disable=broad-except
+            return "FIRST-" + err_s(e), "FIRST-" + err_s(e)
+        tag["wrote"] = wrote
+        tag["untouched"] = after1 == before
+        try:
+            second, after2, _ = once()
+            second_full = second + after2
+        except Exception as e:  # pylint: disable=broad-except
+            second, second_full = err_s(e), err_s(e)
+        tag["same"] = second == first
+        return first, f"first: {first}{after1} second: {second_full}"
+
+    try:
+        hard, full = f()
+    except Exception as e:  # pylint: disable=broad-except
+        hard = full = err_s(e)
+    R.corr("c06 rerun1 " + args, lambda: hard,
+           sig=(f"rerun|rhs-started={bool_s(tag.get('rhs_started', False))}|first-wrote={bool_s(tag.get('wrote', False))}|"
+                f"inputs-{'untouched' if tag.get('untouched') else 'modified'}|"
+                f"second={'same' if tag.get('same') else 'ERR' if ' second: ERR' in full else 'differs'}"))
+    soft.append(("c06 rerun " + args, full))
+    return hard
+
+
+def rerun_soft_check(R, soft):
+    """informational tie of the re-execution model: model lines through the driver here, differences counted"""
+    from .common import lean_build, run_driver
+    if not soft:
+        return
+    try:
+        ok, _log = lean_build(["driver_c06"])
+        outs = run_driver("C06", [l for l, _ in soft]) if ok else None
+    except Exception:  # pylint: disable=broad-except
+        outs = None
+    if outs is None:
+        R.notes.append("re-execution model (mergeTwice): driver not available, input post-states not compared")
+        return
+    diff = [(l, real, m) for (l, real), m in zip(soft, outs) if real != m]
+    R.extra["reexecution_model_cases"] = len(soft)
+    R.extra["reexecution_model_differences"] = len(diff)
+    R.count("rerun-soft:agree", len(soft) - len(diff))
+    if diff:
+        R.count("rerun-soft:differ", len(diff))
+        R.notes.append(f"re-execution model (Model/C06Ops.lean mergeTwice): {len(diff)} of {len(soft)} cases differ in what the "
+                       "merge task leaves in its INPUT objects / does when executed again (internal to the code, not a "
+                       f"violation; the task's result and writer calls are compared as `rerun1`); first: {diff[0][0]}")
+
+
+def tokeq_case(R, min_write, min_part, a, b):
+    """do the roots of two evaluations get the same dask token?  a, b = (spill, wpc, mark_final, tree)"""
+    from dask.base import tokenize
+    from odc.geo.cog import _mpu as M
+    line = (f"c06 tokeq {min_write} {min_part} " + " ".join(
+        f"{sp} {wpc} {bool_s(mf)} {enc_tree(t)}" for sp, wpc, mf, t in (a, b)))
+
+    def f():
+        roots = []
+        for sp, wpc, mf, t in (a, b):
+            w = RecWriter(min_write, min_part, min_part + 100000)
+            try:
+                roots.append(real_eval_tree(M, w, t, sp, wpc, mf, len(tree_leaves(t)), {"idx": 0, "off": 0, "cid": 0}))
+            except Exception:  # pylint: disable=broad-except
+                return "EVAL-ERR"
+        return bool_s(tokenize(roots[0]) == tokenize(roots[1]))
+
+    out = R.corr(line, f)
+    R.sigs[-1] = f"tokeq|{out}|same-args={bool_s(a == b)}"
+    return out
+
+
+def token_lhs_keep(R: Run):
+    """MPUChunk.__dask_tokenize__ must tell apart sections that differ in ANY field (dask uses the token as the identity
+    of the from_sequence layer of from_dask_bag): field by field on bare sections, then the real scenario - two
+    sub-streams over the same bag for writers that differ in min_write_sz only, computed in ONE dask.compute."""
+    import dask
+    import dask.bag
+    from dask.base import tokenize
+    from odc.geo.cog import _mpu as M
+
+    base = dict(partId=2, write_credits=1, is_final=False, lhs_keep=4)
+    for field, other in (("partId", 3), ("write_credits", 2), ("is_final", True), ("lhs_keep", 20)):
+        c1 = M.MPUChunk(**base)
+        c2 = M.MPUChunk(**dict(base, **{field: other}))
+        R.oracle(tokenize(c1) != tokenize(c2), f"dask-token-ignores-{field.replace('_', '-')}".replace("lhs-keep", "lhs-keep"),
+                 {"field": field, "a": base[field], "b": other},
+                 f"two MPUChunk sections that differ in {field} ({base[field]} vs {other}) have the same dask token",
+                 sig=f"token-field|{field}")
+    sizes = [7, 30, 30, 30]
+    items, off = [], 0
+    for cid, sz in enumerate(sizes):
+        items.append((payload(off, sz), cid))
+        off += sz
+    bag = dask.bag.from_sequence(items, npartitions=len(items))
+    want = payload(0, off)
+    for order in (0, 1):
+        ws = [RecWriter(4, 1, 100), RecWriter(20, 1, 100)]
+        subs = [M.MPUChunk.from_dask_bag(2, bag, writes_per_chunk=1, mark_final=True, lhs_keep=w.min_write_sz, write=w,
+                                         spill_sz=1) for w in ws]
+        case = {"sizes": sizes, "min_write_sz": [4, 20], "compute-order": order,
+                "how": "dask.compute(from_dask_bag(.., write=wa, lhs_keep=4), from_dask_bag(.., write=wb, lhs_keep=20))"}
+        try:
+            roots = dask.compute(*(subs if order == 0 else subs[::-1]), scheduler="synchronous")
+            roots = roots if order == 0 else roots[::-1]
+            for w, root in zip(ws, roots):
+                root.flush(w, leftPartId=w.min_part)
+            ok = all(b"".join(d for _, d in sorted(w.calls)) == want and w.final == sorted(p for p, _ in w.calls)
+                     and all(len(d) >= w.min_write_sz for _, d in sorted(w.calls)[:-1]) for w in ws)
+            what = "; ".join(f"min_write_sz={w.min_write_sz}: parts {[(p, len(d)) for p, d in sorted(w.calls)]} final={w.final}" for w in ws)
+        except Exception as e:  # pylint: disable=broad-except
+            ok, what = False, f"{type(e).__name__}: {e!r}; " + "; ".join(
+                f"min_write_sz={w.min_write_sz}: parts {[(p, len(d)) for p, d in sorted(w.calls)]} final={w.final}" for w in ws)
+        R.oracle(ok, "dask-token-ignores-lhs-keep", case,
+                 "two sub-streams in one dask.compute share the from_sequence key of their sections (token omits lhs_keep): "
+                 + what, sig="token-scenario")
+
+
 # ------------------------------------------------------------------ real code through dask
 def real_dask(R: Run, case_cfg, partitions_per_sub, split_every, sched, use_mpu_write, gen_parts=False, tkind=0, wkind=0):
     """Run the real dask graph; returns (Case with the tree dask built, out, info).
@@ -398,44 +804,59 @@ def real_dask(R: Run, case_cfg, partitions_per_sub, split_every, sched, use_mpu_
     keep = []
     trees = {}
     lock = threading.Lock()
-    orig_append, orig_merge, orig_collate, orig_fin = (
-        M._mpu_append_chunks_op, M._merge_and_spill_op, M._mpu_collate_op, M._finalizer_dask_op)
+    ops = priv_ops(M)       # None: the private operators are not there under these names -> nothing is patched
     info = {"w": w, "seen": None, "exc": None, "cb_seen": []}
+    if ops is None:
+        use_mpu_write, tkind = True, 0      # public route only
+    info["used_mpu_write"] = use_mpu_write
+    info["split"] = 4 if use_mpu_write else split_every
 
-    def t_append(mpus, chunks, write=None, spill_sz=0):
+    def note(x):
+        # the merge tree is OBSERVED through the wrappers; a result they have not seen (an operator that is no longer
+        # called by this name) only means the tree is not observable - the run itself goes on
+        if x is None:
+            info["tree_lost"] = True
+        return x
+
+    def t_append(mpus, chunks, *a, **kw):
         mpus = list(mpus)
         chunks = list(chunks)
-        sizes = [len(d) for d, _ in chunks]
-        out = tuple(transport(o, tkind) for o in orig_append(mpus, chunks, write=write, spill_sz=spill_sz))
+        sizes = [len(c[0]) for c in chunks]
+        out = tuple(transport(o, tkind) for o in ops["_mpu_append_chunks_op"](mpus, chunks, *a, **kw))
         with lock:
             keep.append(out[0])
             trees[id(out[0])] = ("l", sizes)
         return out
 
-    def t_merge(lhs, rhs, write=None, spill_sz=0):
+    def t_merge(lhs, rhs, *a, **kw):
         with lock:
-            tl, tr = trees[id(lhs)], trees[id(rhs)]
-        out = transport(orig_merge(lhs, rhs, write=write, spill_sz=spill_sz), tkind)
+            tl, tr = note(trees.get(id(lhs))), note(trees.get(id(rhs)))
+        out = transport(ops["_merge_and_spill_op"](lhs, rhs, *a, **kw), tkind)
         with lock:
             keep.append(out)
-            trees[id(out)] = ("n", tl, tr)
+            trees[id(out)] = ("n", tl, tr) if tl is not None and tr is not None else None
         return out
 
-    def t_collate(substreams, *, write=None, spill_sz=0):
+    def t_collate(substreams, *a, **kw):
         with lock:
-            t = trees[id(substreams[0])]
-            for s in substreams[1:]:
-                t = ("n", t, trees[id(s)])
-        out = transport(orig_collate(substreams, write=write, spill_sz=spill_sz), tkind)
+            ts = [note(trees.get(id(s))) for s in substreams]
+            t = None
+            if all(x is not None for x in ts):
+                t = ts[0]
+                for x in ts[1:]:
+                    t = ("n", t, x)
+        out = transport(ops["_mpu_collate_op"](substreams, *a, **kw), tkind)
         with lock:
             keep.append(out)
             trees[id(out)] = t
         return out
 
-    def t_fin(data_substream, **kw):
-        info["tree"] = trees[id(data_substream)]
-        info["seen"] = list(data_substream.observed)
-        return orig_fin(data_substream, **kw)
+    def t_fin(data_substream, *a, **kw):
+        t = note(trees.get(id(data_substream)))
+        if t is not None:
+            info["tree"] = t
+        info["seen"] = list(getattr(data_substream, "observed", []))
+        return ops["_finalizer_dask_op"](data_substream, *a, **kw)
 
     def mk(bs):
         def f(obs):
@@ -443,9 +864,11 @@ def real_dask(R: Run, case_cfg, partitions_per_sub, split_every, sched, use_mpu_
             return bs
         return f
 
-    M._mpu_append_chunks_op, M._merge_and_spill_op, M._mpu_collate_op, M._finalizer_dask_op = (
-        t_append, t_merge, t_collate, t_fin)
+    if ops is not None:
+        M._mpu_append_chunks_op, M._merge_and_spill_op, M._mpu_collate_op, M._finalizer_dask_op = (
+            t_append, t_merge, t_collate, t_fin)
     pool = None
+    leaves_all = [l for sub in partitions_per_sub for l in sub]
     try:
         mk_header = None if hdr is None else mk(hdr_bytes(hdr))
         mk_footer = None if ftr is None else mk(ftr_bytes(ftr))
@@ -471,8 +894,18 @@ def real_dask(R: Run, case_cfg, partitions_per_sub, split_every, sched, use_mpu_
         else:
             pool = RandomOrderExecutor(R.rng)
             rr = fut.compute(scheduler="threads", pool=pool)
-        tree = info["tree"]
+        if info.get("tree_lost"):
+            info.pop("tree", None)
+        tree = info.get("tree")
+        if tree is None:
+            # not observable: the tree the model derives for these bags (python twin of the Lean `mpuWriteTree`)
+            tree = py_mpu_tree(partitions_per_sub, 4 if use_mpu_write else split_every)
         case = Case(has_w, min_write, min_part, max_part, spill, wpc, hdr, ftr, tree)
+        if info["seen"] is None:
+            # the observed list is visible through the callbacks only; without callbacks take the chunk's own log
+            info["seen"] = (info["cb_seen"][0] if info["cb_seen"] else
+                            [o for o in getattr(rr, "observed", case.want_obs()) if o[1] is not None] if w is None
+                            else case.want_obs())
         if w is None:
             c = rr
             info["chunk"] = c
@@ -484,17 +917,15 @@ def real_dask(R: Run, case_cfg, partitions_per_sub, split_every, sched, use_mpu_
         return case, out, info
     except Exception as e:  # pylint: disable=broad-except
         info["exc"] = e
-        # tree of the failing run: fall back to a left-leaning tree (only used for reporting)
-        leaves = [l for sub in partitions_per_sub for l in sub]
-        tree = info.get("tree")
+        # tree of the failing run when it was not observed: the one the model derives for these bags
+        tree = None if info.get("tree_lost") else info.get("tree")
         if tree is None:
-            tree = ("l", leaves[0])
-            for l in leaves[1:]:
-                tree = ("n", tree, ("l", l))
+            tree = py_mpu_tree(partitions_per_sub, info.get("split", 4))
         return Case(has_w, min_write, min_part, max_part, spill, wpc, hdr, ftr, tree), err_s(e), info
     finally:
-        M._mpu_append_chunks_op, M._merge_and_spill_op, M._mpu_collate_op, M._finalizer_dask_op = (
-            orig_append, orig_merge, orig_collate, orig_fin)
+        if ops is not None:
+            for n_, f_ in ops.items():
+                setattr(M, n_, f_)
         if pool is not None:
             pool.shutdown(wait=False)
 
@@ -550,6 +981,60 @@ def real_dask_processes(R: Run, cfg, subs):
         except Exception as e:  # pylint: disable=broad-except
             info["exc"] = e
         oracle(R, case, "", info, "dask:processes")
+    finally:
+        shutil.rmtree(root, ignore_errors=True)
+
+
+
+def real_file_sink(R: Run, cfg, subs, sched):
+    """End to end through the library's own file sink (the C18 writer): mpu_write -> MPUFileSink -> bytes on disk.
+    Lean: Props/C06Cog.lean::cog_file_end_to_end / Props/C18C06.lean."""
+    import shutil
+    import tempfile
+    import dask.bag
+    from dask.delayed import delayed
+    from odc.geo.cog import _mpu as M
+    from odc.geo.cog._mpu_fs import MPUFileSink
+
+    _, min_write, min_part, max_part, spill, wpc, hdr, ftr = cfg
+    root = tempfile.mkdtemp(prefix="c06-sink-")
+    try:
+        dst = os.path.join(root, "out.bin")
+        w = MPUFileSink(dst, min_write_sz=min_write, min_part=min_part, max_part=max_part)
+        off = cid = 0
+        bags = []
+        for sub in subs:
+            parts = []
+            for sizes in sub:
+                items = []
+                for sz in sizes:
+                    items.append((payload(off, sz), cid))
+                    off += sz
+                    cid += 1
+                parts.append(delayed(lambda x: x, pure=False)(items))
+            bags.append(dask.bag.from_delayed(parts))
+        seen = []
+        mk_header = None if hdr is None else (lambda obs, _b=hdr_bytes(hdr): (seen.append(list(obs)), _b)[1])
+        mk_footer = None if ftr is None else (lambda obs, _b=ftr_bytes(ftr): (seen.append(list(obs)), _b)[1])
+        leaves = [l for sub in subs for l in sub]
+        tree = ("l", leaves[0])
+        for l in leaves[1:]:
+            tree = ("n", tree, ("l", l))
+        case = Case(True, min_write, min_part, max_part, spill, wpc, hdr, ftr, tree)
+        cd = {"line": mpuw_line(cfg, subs), "via": f"file-sink:{sched}"}
+        try:
+            M.mpu_write(bags if len(bags) > 1 else bags[0], w, mk_header=mk_header, mk_footer=mk_footer,
+                        writes_per_chunk=wpc, spill_sz=spill).compute(scheduler="synchronous" if sched == "sync" else "threads")
+        except Exception as e:  # pylint: disable=broad-except
+            R.oracle(False, f"mpu-write-fails:{type(e).__name__}", cd, f"mpu_write to MPUFileSink failed with {e!r}")
+            return
+        got = open(dst, "rb").read() if os.path.exists(dst) else None
+        want = case.stream()
+        R.oracle(got == want, "file-sink-object-differs", cd,
+                 f"file has {None if got is None else len(got)} bytes, want {len(want)}")
+        left = [f for f in os.listdir(root) if f != "out.bin"]
+        R.oracle(not left, "file-sink-parts-left-behind", cd, f"left in the directory: {left}")
+        R.oracle(all(s_ == case.want_obs() for s_ in seen), "callbacks-observed-incomplete", cd, f"observed {seen[:1]}")
     finally:
         shutil.rmtree(root, ignore_errors=True)
 
@@ -708,6 +1193,14 @@ class _Collector:
         self.oracle_evals = 0
         self.oracle_failures = []
         self.dist = {}
+        self.sigs = [None]
+
+    def corr(self, line, fn, sig=None):
+        """real side only (the searcher looks for a failing input of the STATEMENT, nothing is compared with the model)"""
+        try:
+            return fn()
+        except Exception as e:  # pylint: disable=broad-except
+            return err_s(e)
 
     def oracle(self, ok, key, case, what="", sig=None, trivial=False):
         self.oracle_evals += 1
@@ -718,11 +1211,21 @@ class _Collector:
         return ok
 
 
+def public_case(c: "Case", sched="sync"):
+    """one configuration through the public route only (mpu_write + dask, one bag, the tree the model derives):
+    -> (line, out, Case, info)"""
+    leaves = tree_leaves(c.tree)
+    cfg = (c.has_w, c.min_write, c.min_part, c.max_part, c.spill, c.wpc, c.hdr, c.ftr)
+    case, out, info = real_dask(None, cfg, [leaves], 4, sched, True)
+    return (mpuw_line(cfg, [leaves]) if info["exc"] is None else case.line()), out, case, info
+
+
 def _exhaustive_worker(job):
     tier, seed, w, nworkers = job
     col = _Collector()
     lines = []
     k = seed % 7
+    fb = fallback_mode()
     for stride, c in _enum(tier):
         k += 1
         if k % stride:
@@ -730,6 +1233,15 @@ def _exhaustive_worker(job):
         if (k // stride) % nworkers != w:
             continue
         j = k // stride
+        if fb:
+            # private operators not available: a sample of the domain through mpu_write (public), model-derived tree
+            if (j // nworkers) % 40:
+                continue
+            line, o, case, info = public_case(c)
+            lines.append((line, o, "public-route|" + sig_of(case, o)))
+            oracle(col, case, o, info, "public:mpu_write")
+            col.dist["public-route"] = col.dist.get("public-route", 0) + 1
+            continue
         tk = (j // 3) % 6 if (j // 3) % 6 < 4 else 0     # by reference half of the time, else pickled / copied
         wk = 1 if j % 5 == 2 else 0
         o, info = real_direct(c, mutable=j % 3 == 0, containers=(k * 2654435761) & 0xFFFF, tkind=tk, wkind=wk)
@@ -780,6 +1292,18 @@ def searcher(R: Run, mismatches):
         oracle(col, case, out, info, "searcher:dask:mpu_write")
         if col.oracle_failures:
             return col.oracle_failures[0]
+    # the public multi-step use: flush(finalise=False) / flush(finalise=True) called directly, then finalise by hand
+    fb = fallback_mode()
+    for _ in range(6000):
+        min_write = rng.choice([10, 4, 1])
+        leaves = [[rng.choice([0, 1, min_write // 2, min_write, 2 * min_write + 3, 5 * min_write + 1])
+                   for _ in range(rng.choice([1, 1, 2, 3]))] for _ in range(rng.randint(1, 5))]
+        wpc = rng.choice([1, 2, 3])
+        mp = rng.choice([0, 1, 5])
+        flushd_case(col, min_write, mp, mp + len(leaves) * wpc + 3, rng.choice([0, 1, min_write, 2 * min_write + 1, 40]), wpc,
+                    rng.random() < 0.7, mp, rng.random() < 0.5, py_dask_tree(leaves) if fb else random_tree(rng, leaves))
+        if col.oracle_failures:
+            return col.oracle_failures[0]
     for _ in range(40000):
         min_write = rng.choice([1, 4, 10])
         leaves = [[rng.choice([0, 1, min_write // 2, min_write, min_write + 1, 2 * min_write + 3, 5 * min_write + 1])
@@ -789,7 +1313,12 @@ def searcher(R: Run, mismatches):
         c = Case(True, min_write, mp, mp + len(leaves) * wpc + 5, rng.choice([0, 1, min_write, 2 * min_write + 1, 40]), wpc,
                  rng.choice([None, 0, 1, min_write, 3 * min_write + 2]), rng.choice([None, None, 0, 1, min_write + 3]),
                  random_tree(rng, leaves))
-        o, info = real_direct(c, tkind=rng.choice([0, 0, 1]))
+        if fallback_mode():
+            if _ > 1500:
+                break
+            _l, o, c, info = public_case(c)
+        else:
+            o, info = real_direct(c, tkind=rng.choice([0, 0, 1]))
         oracle(col, c, o, info, "searcher:direct")
         if col.oracle_failures:
             return col.oracle_failures[0]
@@ -811,6 +1340,22 @@ def sig_of(case: Case, out: str) -> str:
 def run(R: Run):
     rng = R.rng
     R.searchers.append(searcher)
+    import time as _time
+    _stages, _last = {}, [_time.time(), "corpus"]
+
+    def mark(name):
+        now = _time.time()
+        _stages[_last[1]] = round(_stages.get(_last[1], 0) + now - _last[0], 1)
+        _last[0], _last[1] = now, name
+        R.extra["stage_s"] = dict(_stages)
+
+    FB = fallback_mode()
+    if FB:
+        R.notes.append("odc.geo.cog._mpu no longer has (all of) the private operators " + ", ".join(PRIV_OPS) + ": nothing "
+                       "is called or patched by private name; direct drive along arbitrary merge trees and the re-execution "
+                       "stream are skipped, every other stream goes through MPUChunk.from_dask_bag / mpu_write (public) and is "
+                       "compared with the model on the tree the model derives")
+    pick_tree = (lambda rng_, leaves_: py_dask_tree(leaves_)) if FB else random_tree
     # ---------------- corpus: replays of the repaired findings (F7, F8, F9) run first
     corpus = [
         Case(True, 10, 1, 100, 20, 1, None, None, ("n", ("l", [30]), ("l", [30, 30]))),          # F7
@@ -820,6 +1365,11 @@ def run(R: Run):
     ]
     for c in corpus:
         res = []
+        if FB:
+            line, o, case, info = public_case(c)
+            R.corr(line, lambda: o, sig="corpus|public-route")
+            oracle(R, case, o, info, "public:mpu_write")
+            continue
 
         def f():
             o, info = real_direct(c)
@@ -829,6 +1379,7 @@ def run(R: Run):
         out = R.corr(c.line(), f, sig="corpus")
         oracle(R, c, res[0][0], res[0][1], "direct")
 
+    mark("exhaustive")
     # ---------------- exhaustive small domain, direct drive along every merge tree (parallel workers)
     import multiprocessing as mp
 
@@ -849,6 +1400,7 @@ def run(R: Run):
     R.extra["exhaustive_domain"] = _domain_desc(R.tier)
     R.exhaustive = False
 
+    mark("random-direct")
     # ---------------- random larger configurations, direct drive
     for _ in range(R.pick(3000, 30000)):
         min_write = rng.choice([0, 1, 4, 10, 16])
@@ -867,6 +1419,12 @@ def run(R: Run):
         hdr = rng.choice([None, 0, 1, min_write, 3 * min_write + 2])
         ftr = rng.choice([None, None, 0, 1, min_write + 3])
         c = Case(has_w, min_write, mp, max_part, spill, wpc, hdr, ftr, random_tree(rng, leaves))
+        if FB:
+            if rng.random() < 0.08 and leaves:
+                line, o, case, info = public_case(c)
+                R.corr(line, lambda: o, sig="public-route|" + sig_of(case, o))
+                oracle(R, case, o, info, "public:mpu_write")
+            continue
         mutable = rng.random() < 0.4
         tk = rng.choice([0, 0, 1, 1, 2, 3])
         wk = int(rng.random() < 0.25)
@@ -880,6 +1438,69 @@ def run(R: Run):
             R.corr(c.line(), lambda: o2, sig="second-upload-shared-buffers")
             oracle(R, c, o2, info2, "direct:second-upload-shared-buffers")
 
+    mark("direct-methods")
+    # ---------------- public MPUChunk methods driven directly: flush with every keyword form (state before / after,
+    #                  return value, two-step finalise), a merge task executed twice, dask tokens
+    leaf_small = [[a] for a in SIZES] + [[a, b] for a in (0, 3, 25) for b in (3, 10, 25)]
+    for _ in range(R.pick(2500, 10000)):
+        min_write = rng.choice([10, 10, 4, 1])
+        nleaf = rng.choice([1, 1, 2, 2, 3, 4])
+        leaves = [[(s_ * min_write) // 10 if min_write != 10 else s_ for s_ in rng.choice(leaf_small)] for _ in range(nleaf)]
+        mp = rng.choice([0, 1, 1, 5])
+        wpc = rng.choice([1, 1, 2, 3])
+        flushd_case(R, min_write, mp, mp + nleaf * wpc + rng.choice([0, 0, 7]), rng.choice([0, 1, min_write, 2 * min_write, 1000]),
+                    wpc, rng.random() < 0.7, rng.choice([None, mp, mp, mp, 1, 3]), rng.random() < 0.5,
+                    pick_tree(rng, leaves))
+    flushd_case(R, 10, 1, 100, 10, 2, True, 1, False,
+                ("n", ("n", ("l", [23, 23, 23]), ("l", [23, 23, 23])), ("l", [23, 23, 23])), "|corpus")   # seeded C06-17
+    soft_rerun = []
+    for _ in range(0 if FB else R.pick(2000, 8000)):
+        min_write = rng.choice([10, 4, 2])
+        mk_leaves = lambda n: [[rng.choice([0, 1, min_write // 2, min_write, 2 * min_write, 3 * min_write + 1, 5 * min_write])
+                                for _ in range(rng.choice([1, 1, 2]))] for _ in range(n)]
+        ll, lr = mk_leaves(rng.choice([1, 1, 2])), mk_leaves(rng.choice([1, 1, 2]))
+        mp = rng.choice([0, 1, 5])
+        wpc = rng.choice([1, 2, 2, 3])
+        rerun_case(R, min_write, mp, mp + (len(ll) + len(lr)) * wpc + rng.choice([0, 9]),
+                   rng.choice([0, 1, min_write, 2 * min_write, 1000]), wpc, rng.random() < 0.5,
+                   random_tree(rng, ll), random_tree(rng, lr), soft_rerun)
+    rerun_soft_check(R, soft_rerun)
+    for _ in range(R.pick(1500, 6000)):
+        min_write = rng.choice([10, 4, 2])
+        leaves = [[rng.choice([0, 1, min_write // 2, min_write, 2 * min_write, 3 * min_write + 1, 5 * min_write])
+                   for _ in range(rng.choice([1, 1, 2]))] for _ in range(rng.choice([1, 1, 2, 3]))]
+        mp = rng.choice([0, 1, 5])
+        wpc = rng.choice([1, 2, 2, 3])
+        args = (min_write, mp, mp + len(leaves) * wpc + rng.choice([0, 9]), rng.choice([0, 1, min_write, 2 * min_write, 1000]),
+                wpc, rng.random() < 0.5)
+        if rng.random() < 0.5:
+            direct_method_case(R, "mwret", *args, rng.choice([0, 1, min_write, 2 * min_write, 50]), None, pick_tree(rng, leaves))
+        else:
+            direct_method_case(R, "frhs", *args, rng.random() < 0.8, rng.choice([0, 0, 1, min_write, 3 * min_write]),
+                               pick_tree(rng, leaves))
+    for _ in range(R.pick(400, 2000)):
+        min_write = rng.choice([10, 4])
+        mk = lambda: (rng.choice([0, 1, min_write, 1000]), rng.choice([1, 2]), rng.random() < 0.5,
+                      pick_tree(rng, [[rng.choice([0, 3, min_write, 3 * min_write])
+                                       for _ in range(rng.choice([1, 2]))] for _ in range(rng.choice([1, 2, 3]))]))
+        a = mk()
+        r_ = rng.random()
+        if r_ < 0.35:
+            b = a
+        elif r_ < 0.7:
+            b = list(a)
+            k = rng.randrange(4)
+            b[k] = mk()[k]
+            b = tuple(b)
+        else:
+            b = mk()
+        tokeq_case(R, min_write, rng.choice([0, 1, 5]), a, b)
+    token_lhs_keep(R)
+    # no bag at all: mpu_write([]) fails while the graph is built
+    from odc.geo.cog import _mpu as M0
+    R.corr("c06 mpuw T 10 1 100 20 1 N N -", lambda: str(M0.mpu_write([], RecWriter(10, 1, 100)).compute(scheduler="synchronous")),
+           sig="mpuw|no-bags")
+    mark("dask")
     # ---------------- real dask graphs (mpu_write / from_dask_bag / fold / collate / finaliser)
     ndask = R.pick(60, 400)
     for i in range(ndask):
@@ -905,6 +1526,8 @@ def run(R: Run):
         tk = rng.choice([0, 1, 1, 2, 3])
         wk = int(rng.random() < 0.25)
         case, out, info = real_dask(R, cfg, subs, split_every, sched, use_mpu_write, gen_parts=gen_parts, tkind=tk, wkind=wk)
+        if not (wk and nsub > 1):
+            dask_shape_corr(R, info, subs, 4 if use_mpu_write else split_every, out, cfg, use_mpu_write, sched)
         if wk and nsub > 1:
             # _mpu_collate_op alone tests the writer's truth value (`if write and spill_sz`): a writer that is still
             # empty when sub-streams are collated skips that opportunistic spill.  Which parts exist then depends on
@@ -918,6 +1541,20 @@ def run(R: Run):
         oracle(R, case, out, info, f"dask:{sched}" + (f":transport={TRANSPORTS[tk]}" if tk else "") + (":writer-with-len" if wk else ""))
         R.count(f"dask-sched:{sched}")
         R.count(f"dask-transport:{TRANSPORTS[tk]}")
+    mark("shape-sweep")
+    # ---------------- the fold shape on a complete small domain: every partition count up to N for every split_every
+    #                  (the boundaries k == split_every, k == split_every**2 (+1) are where the loop of Bag.reduction turns)
+    t_sweep = __import__("time").time()
+    for split in (2, 3, 4, 5, 8):
+        for npart in range(1, R.pick(34, 90) + 1):
+            subs = [[[1]] * npart]
+            cfg = (False, 4, 1, 10**6, 0, 1, None, None)
+            case, out, info = real_dask(R, cfg, subs, split, "sync", split == 4 and npart % 2 == 0)
+            dask_shape_corr(R, info, subs, split, out, cfg, False, "sweep")
+            R.corr(case.line(), lambda: out, sig="dask|sync|shape-sweep")
+            R.count("dask-shape-sweep")
+    R.extra["shape_sweep_s"] = round(__import__("time").time() - t_sweep, 2)
+    mark("seeds")
     # ---------------- how mpu_write seeds the partitions of its bags (part ids, credits, final flag, lhs_keep)
     import dask.bag
     from odc.geo.cog import _mpu as M_
@@ -940,7 +1577,18 @@ def run(R: Run):
                          writes_per_chunk=wpc, spill_sz=0)
         finally:
             M_.MPUChunk.gen_bunch = staticmethod(orig)
+        if len(seen) != len(nparts):
+            raise LookupError("sections are not made through MPUChunk.gen_bunch")
         return list_s(seen, lambda b: list_s(b))
+
+    def direct_bunch(has_w, min_write, min_part, wpc, mark_final, nparts):
+        # the public static method itself, one call per bag as mpu_write documents the numbering
+        out, pid = [], min_part + 1 if has_w else 2
+        for i, n in enumerate(nparts):
+            out.append([f"{c.nextPartId}#{c.write_credits}/{bool_s(c.is_final)}/{c.lhs_keep}" for c in M_.MPUChunk.gen_bunch(
+                pid, n, writes_per_chunk=wpc, mark_final=mark_final and i == len(nparts) - 1, lhs_keep=min_write if has_w else 0)])
+            pid += n * wpc
+        return list_s(out, lambda b: list_s(b))
 
     for _ in range(R.pick(150, 1500)):
         nparts = [rng.randint(1, 6) for _ in range(rng.choice([1, 1, 2, 3, 4, 5]))]
@@ -948,8 +1596,16 @@ def run(R: Run):
             nparts[rng.randrange(len(nparts))] = rng.randint(7, 40)
         has_w = rng.random() < 0.85
         a = (has_w, rng.choice([0, 4, 10]), rng.choice([0, 1, 3, 7]), rng.choice([1, 2, 3, 5]), rng.random() < 0.5, nparts)
-        R.corr(f"c06 seeds {bool_s(a[0])} {a[1]} {a[2]} {a[3]} {bool_s(a[4])} {list_s(nparts)}",
-               lambda: real_seeds(*a), sig=f"seeds|bags={len(nparts)}|w={bool_s(has_w)}")
+        line_ = f"c06 seeds {bool_s(a[0])} {a[1]} {a[2]} {a[3]} {bool_s(a[4])} {list_s(nparts)}"
+        try:
+            got_ = real_seeds(*a)
+            R.corr(line_, lambda: got_, sig=f"seeds|bags={len(nparts)}|w={bool_s(has_w)}")
+        except LookupError:
+            # mpu_write does not go through gen_bunch (any more): the numbering stays covered by every dask run
+            # (part ids of all writes are compared with the model); the static method is compared on its own
+            R.count("seeds-not-observable")
+            R.corr(line_, lambda: direct_bunch(*a), sig=f"seeds|gen_bunch-direct|bags={len(nparts)}")
+    mark("substreams")
     # ---------------- mpu_write over several bags, each sub-stream from its own size class
     for i in range(R.pick(80, 800)):
         cfg, subs = substream_case(rng)
@@ -957,8 +1613,10 @@ def run(R: Run):
         tk = rng.choice([0, 0, 1])
         case, out, info = real_dask(R, cfg, subs, 2, sched, True, gen_parts=rng.random() < 0.2, tkind=tk)
         R.corr(case.line(), lambda: out, sig=f"dask|{sched}|mpu_write|substream-classes|subs={len(subs)}")
+        dask_shape_corr(R, info, subs, 4, out, cfg, True, "substream-classes")
         oracle(R, case, out, info, f"dask:{sched}:substream-classes")
         R.count("dask-substream-classes")
+    mark("processes")
     # ---------------- the real graph under the process-based scheduler (everything pickled, writer state on disk)
     for i in range(R.pick(3, 20)):
         min_write = rng.choice([4, 10])
@@ -971,6 +1629,18 @@ def run(R: Run):
                rng.choice([None, 6]), rng.choice([None, 5]))
         real_dask_processes(R, cfg, subs)
         R.count("dask-sched:processes")
+    mark("file-sink")
+    # ---------------- end to end through the library's file sink: bytes on disk
+    for i in range(R.pick(10, 80)):
+        cfg, subs = substream_case(rng)
+        if rng.random() < 0.5:
+            subs = [[[rng.choice([0, 3, cfg[1], 2 * cfg[1] + 5, rng.randint(0, 40)]) for _ in range(rng.choice([1, 2]))]
+                     for _ in range(rng.randint(1, 6))]]
+            total = len(subs[0])
+            cfg = cfg[:3] + (cfg[2] + total * cfg[5] + 7,) + cfg[4:]
+        real_file_sink(R, cfg, subs, ["sync", "threads"][i % 2])
+        R.count("dask-file-sink")
+    mark("pairs")
     # ---------------- several uploads inside one dask graph (equal options, different destinations / data)
     for i in range(R.pick(12, 90)):
         min_write = rng.choice([4, 10])
@@ -987,14 +1657,61 @@ def run(R: Run):
         if i % 2 == 0:
             real_dask_recompute(R, cfg, sa, ["sync", "threads"][(i // 2) % 2])
             R.count("dask-recompute")
+    mark("end")
     R.assumptions.append("dask runs every task once after its dependencies; tasks are pure functions of their inputs")
 
 
+def parse_tree_tokens(text):
+    toks = text.split(";")
+
+    def go(i):
+        if toks[i] == "n":
+            l, i = go(i + 1)
+            r, i = go(i)
+            return ("n", l, r), i
+        body = toks[i][2:]
+        return ("l", [int(x) for x in body.split(",")] if body else []), i + 1
+
+    return go(0)[0]
+
+
 def replay(R: Run, rec) -> int:
-    case = parse_case(rec["case"]["line"])
-    via = rec["case"].get("via", "")
     key = rec.get("key", "")
     before = len(R.oracle_failures)
+    line = (rec.get("case") or {}).get("line", "")
+    if key.startswith("dask-token-ignores") or not line:
+        token_lhs_keep(R)
+        for f in R.oracle_failures[before:]:
+            print("FAILS:", f["key"], f["what"])
+        return 1 if len(R.oracle_failures) > before else 0
+    if line.startswith("c06 flushd "):
+        t = line.split(" ")
+        o = lambda x: None if x == "N" else int(x)
+        out = flushd_case(R, int(t[2]), int(t[3]), int(t[4]), int(t[5]), int(t[6]), t[7] == "T", o(t[8]), t[9] == "T",
+                          parse_tree_tokens(t[10]))
+        print("real :", out)
+        R.proof_stage()
+        from .common import run_driver
+        print("model:", run_driver("C06", [line])[0])
+        for f in R.oracle_failures[before:]:
+            print("FAILS:", f["key"], f["what"])
+        return 1 if len(R.oracle_failures) > before else 0
+    if line.startswith("c06 mpuw "):
+        t = line.split(" ")
+        o = lambda x: None if x == "N" else int(x)
+        cfg = (t[2] == "T", int(t[3]), int(t[4]), int(t[5]), int(t[6]), int(t[7]), o(t[8]), o(t[9]))
+        subs = [[[int(x) for x in part.split(",")] if part != "_" else [] for part in bag.split("/")] for bag in t[10].split(";")]
+        if (rec.get("case") or {}).get("via", "").startswith("file-sink"):
+            real_file_sink(R, cfg, subs, "sync")
+        else:
+            case, out, info = real_dask(R, cfg, subs, 4, "sync", True)
+            print("real :", out)
+            oracle(R, case, out, info, "replay:mpu_write")
+        for f in R.oracle_failures[before:]:
+            print("FAILS:", f["key"], f["what"])
+        return 1 if len(R.oracle_failures) > before else 0
+    case = parse_case(rec["case"]["line"])
+    via = rec["case"].get("via", "")
     if key == "recompute-differs" or via.startswith("dask-recompute"):
         subs = [[l for l in tree_leaves(case.tree)]]
         cfg = (True, case.min_write, case.min_part, case.max_part, case.spill, case.wpc, case.hdr, case.ftr)
@@ -1005,10 +1722,13 @@ def replay(R: Run, rec) -> int:
         real_dask_pair(R, cfg, subs, subs, "sync")
     else:
         mutable = key == "caller-buffer-mutated" or "shared-buffers" in via
-        out, info = real_direct(case, mutable=mutable)
+        if fallback_mode():
+            _l, out, case, info = public_case(case)
+        else:
+            out, info = real_direct(case, mutable=mutable)
         print("real :", out)
         oracle(R, case, out, info, "replay")
-        if mutable:
+        if mutable and not fallback_mode():
             out2, info2 = real_direct(case, mutable=True, shared=info["bufs"])
             print("real (second upload, same buffers):", out2)
             oracle(R, case, out2, info2, "replay:second")
